@@ -30,7 +30,7 @@ RULE = (
     "contexts write; distinct = distinct (realisation, operation tuples, interleaving) hashes"
 )
 REQUIRED_OBS = ["realisation:copy_context", "realisation:threads", "realisation:asyncio", "interleavings", "full_readbacks", "payload_snapshots_checked",
-                "spawned_children", "unbound_proxy_reads", "reach:Local.__setattr__", "reach:LocalStack.push", "reach:LocalStack.pop", "reach:Local.__release_local__"]
+                "spawned_children", "unbound_proxy_reads", "anonymous_locals_checked", "reach:Local.__setattr__", "reach:LocalStack.push", "reach:LocalStack.pop", "reach:Local.__release_local__"]
 ASSUMPTIONS = [
     "the heap is shared as in Python: in-place mutation of a value object through a proxy is visible wherever that object is referenced; only *bindings* are per context",
     "threads realise sibling contexts (a new thread starts with an empty context); parent/child is realised with copy_context and asyncio.create_task",
@@ -39,7 +39,7 @@ TIERS = {"quick": dict(nshards=16, tuples=120, shape=[(2, 3)], thread_scheds=80,
          "thorough": dict(nshards=64, tuples=260, shape=[(2, 4), (3, 3), (2, 3)], thread_scheds=120, async_scheds=60, stress_ops=6000)}
 EXHAUSTIVE_SUBSPACES = {"quick": ["all interleavings of 2 contexts x 3 operations for each sampled operation tuple"],
                         "thorough": ["all interleavings of 2x4 and 3x3 operations for each sampled operation tuple"]}
-OPS = ["set_val", "push_val", "proxy_val_attr", "proxy_val_attr", "set_x", "set_y", "del_x", "get_x", "iter", "push", "pop", "top", "release", "cleanup", "proxy_x", "proxy_top", "proxy_cv", "proxy_fn", "mutate_y", "spawn", "push_dict", "proxy_top_attr"]
+OPS = ["set_val", "push_val", "proxy_val_attr", "proxy_val_attr", "set_x", "set_y", "del_x", "get_x", "iter", "push", "pop", "top", "release", "cleanup", "proxy_x", "proxy_top", "proxy_cv", "proxy_fn", "mutate_y", "spawn", "push_dict", "proxy_top_attr", "push_falsy"]
 
 
 def shards(tier, seed):
@@ -64,6 +64,13 @@ class Val:
 
     def __repr__(self):
         return f"Val({self.key!r}, {self.payload!r})"
+
+
+class Empty:
+    """A container-like object that is empty (falsy) but very much an object."""
+
+    def __len__(self):
+        return 0
 
 
 def same(a, b):
@@ -156,6 +163,11 @@ class Harness:
 
             o = Obj()
             o.attr = v
+            stk.push(o)
+            self.model[who] = (md, ms + (o,))
+        elif op == "push_falsy":
+            # a bound object that happens to be falsy is still bound
+            o = (0, "", [], Empty(), 0.0)[v % 5]
             stk.push(o)
             self.model[who] = (md, ms + (o,))
         elif op == "pop":
@@ -278,7 +290,7 @@ class Harness:
 
 
 def is_writer(ops):
-    return any(o in ("set_val", "push_val", "set_x", "set_y", "push", "push_dict", "del_x", "pop", "release", "cleanup") for o in ops)
+    return any(o in ("set_val", "push_val", "set_x", "set_y", "push", "push_dict", "push_falsy", "del_x", "pop", "release", "cleanup") for o in ops)
 
 
 def run_copy_context(L, rec, ops_per_ctx, schedule, rng):
@@ -496,6 +508,7 @@ def run(shard, rec, rng):
                     rec.violation(f"C18/raises-{type(e).__name__}", f"{e!r}; {case}", case, monitor="boundary")
             if len(rec.samples) < 3:
                 rec.sample({"realisation": "copy_context", "ops": ops, "interleavings": len(scheds)})
+    anonymous_locals(L, rec, 40)
     # (b) threads
     TOPS = [o for o in OPS if o != "spawn"]
     for _ in range(cfg["thread_scheds"]):
@@ -532,6 +545,48 @@ def run(shard, rec, rng):
         except Exception as e:  # noqa: BLE001
             rec.violation(f"C18/asyncio-raises-{type(e).__name__}", f"{e!r}; {case}", case, monitor="boundary")
     reach.finish()
+
+
+def anonymous_locals(L, rec, rounds):
+    """Locals created without an explicit ContextVar come and go (tests, per-app objects): a brand-new Local /
+    LocalStack is empty in the context that creates it and in every child of it, whatever earlier, collected
+    locals held there - also when it is allocated at the address of one of them."""
+    import gc
+
+    seen_ids = set()
+    case = {"realisation": "anonymous-locals"}
+    for rnd in range(rounds):
+        rec.case()
+        old_l, old_s = L.Local(), L.LocalStack()
+        old_l.x = ("written-by-round", rnd)
+        old_s.push(("pushed-by-round", rnd))
+        ids = (id(old_l), id(old_s))
+        del old_l, old_s
+        gc.collect()
+        new_l, new_s = L.Local(), L.LocalStack()
+        if id(new_l) in seen_ids or id(new_s) in seen_ids or id(new_l) in ids or id(new_s) in ids:
+            rec.observe("anonymous_local_allocated_at_a_recycled_address")
+        seen_ids.update(ids)
+
+        def look():
+            return dict(list(new_l)), new_s.top, getattr(new_l, "x", "MISSING")
+
+        for where, got in (("creating context", look()), ("child context", contextvars.copy_context().run(look))):
+            rec.observe("anonymous_locals_checked")
+            if got != ({}, None, "MISSING"):
+                rec.violation("C18/LEAK-new-local-not-empty", f"a new Local()/LocalStack() in the {where} holds {got!r} (round {rnd})", case, monitor="reference-store")
+                return
+        px = new_s()
+        try:
+            px._get_current_object()
+            rec.violation("C18/LEAK-new-local-not-empty", f"the proxy of a new LocalStack() is bound (round {rnd})", case, monitor="reference-store")
+            return
+        except RuntimeError:
+            pass
+        new_l.x = rnd  # leave something behind, unreleased, for the next round
+        new_s.push(rnd)
+        seen_ids.update((id(new_l), id(new_s)))
+        del new_l, new_s, px, look
 
 
 def stress(L, rec, rng, nops):
